@@ -133,6 +133,12 @@ type FuncSpec struct {
 	GhostVars []GhostVar        // function-level ghost variables (Init only)
 	GhostRes  map[string]string // ghost results: name -> "int" | "mapint" | "bool"
 	Focus     []FocusSpec
+	// Budget: solver time budget multiplier for this function's obligations ("budget 4"): for the few proofs whose
+	// obligations need 10-15 s, so that they are decided well inside the budget instead of around it
+	Budget int
+	// ThoroughOnly: the body is verified in the thorough tier only; in the quick tier the contract is assumed (and listed as
+	// such). For a proof whose obligations need tens of seconds each.
+	ThoroughOnly bool
 }
 
 // FocusSpec: proof hint. Obligations whose name (after "pkg.Func:") matches Obl are first tried with only those labelled
@@ -517,7 +523,7 @@ var directiveKeywords = map[string]bool{
 	"pred": true, "ghost": true, "func": true, "requires": true, "ensures": true, "modifies": true,
 	"inline": true, "trusted": true, "loop": true, "invariant": true, "decreases": true, "lemma": true,
 	"panics-iff": true, "props": true, "ghostvar": true, "at": true, "vars": true, "induction": true, "noverify": true,
-	"assert": true, "ghostresult": true, "focus": true,
+	"assert": true, "ghostresult": true, "focus": true, "budget": true, "thorough-only": true,
 }
 
 type rawDirective struct {
@@ -823,6 +829,17 @@ func parseSpecFile(pkg string, f *ast.File, lineOf func(ast.Node) int) (*SpecFil
 			cur.Trusted = true
 		case "noverify":
 			cur.NoVerify = d.text
+		case "thorough-only":
+			if cur == nil {
+				return nil, fmt.Errorf("line %d: thorough-only outside a func", d.line)
+			}
+			cur.ThoroughOnly = true
+		case "budget":
+			n, err := strconv.Atoi(strings.TrimSpace(d.text))
+			if err != nil || n < 1 || n > 8 || cur == nil {
+				return nil, fmt.Errorf("line %d: budget <1..8>", d.line)
+			}
+			cur.Budget = n
 		case "focus":
 			ci := strings.Index(d.text, " : ")
 			if ci < 0 || cur == nil {
